@@ -79,7 +79,9 @@ func c05(c *core.Ctx) {
 	})
 	gets := invokeCalls(ld, "persistence/session.Store", "Get")
 	isLock := ssax.CallMatching(func(ce ssax.Callee) bool { return ce.Name == "(*sync.RWMutex).Lock" || ce.Name == "(*sync.Mutex).Lock" })
-	isUnlock := ssax.CallMatching(func(ce ssax.Callee) bool { return ce.Name == "(*sync.RWMutex).Unlock" || ce.Name == "(*sync.Mutex).Unlock" })
+	isUnlock := ssax.CallMatching(func(ce ssax.Callee) bool {
+		return ce.Name == "(*sync.RWMutex).Unlock" || ce.Name == "(*sync.Mutex).Unlock"
+	})
 	var onlineLookups []ssa.Instruction
 	ssax.Instrs(ld, false, func(_ *ssa.Function, in ssa.Instruction) {
 		if l, ok := in.(*ssa.Lookup); ok && ssax.AnyIn(ssax.Backward(l.X), ssax.LoadOfField("server.server.clients")) {
@@ -408,13 +410,17 @@ func c05(c *core.Ctx) {
 	// DISCONNECT override is unconditional in the value
 	nOv := 0
 	for _, st := range storesToField(ur, "gmqtt.Session.ExpiryInterval") {
-		if !ssax.AnyIn(ssax.BackwardOpt(st.Val, func(call *ssa.Call) bool { return call.Call.StaticCallee() != nil && core.IsModuleFunc(call.Call.StaticCallee()) }), ssax.LoadOfField("pkg/packets.Properties.SessionExpiryInterval")) {
+		if !ssax.AnyIn(ssax.BackwardOpt(st.Val, func(call *ssa.Call) bool {
+			return call.Call.StaticCallee() != nil && core.IsModuleFunc(call.Call.StaticCallee())
+		}), ssax.LoadOfField("pkg/packets.Properties.SessionExpiryInterval")) {
 			continue
 		}
 		nOv++
 		valueGuard := false
 		for _, g := range ssax.Guards(st) {
-			set := ssax.BackwardOpt(g.Cond, func(call *ssa.Call) bool { return call.Call.StaticCallee() != nil && core.IsModuleFunc(call.Call.StaticCallee()) })
+			set := ssax.BackwardOpt(g.Cond, func(call *ssa.Call) bool {
+				return call.Call.StaticCallee() != nil && core.IsModuleFunc(call.Call.StaticCallee())
+			})
 			if ssax.AnyIn(set, ssax.LoadOfField("pkg/packets.Properties.SessionExpiryInterval")) {
 				// a nil test of the pointer itself is fine; a test of the value is not
 				if bo, ok := g.Cond.(*ssa.BinOp); ok && (isNilConst(bo.Y) || isNilConst(bo.X)) {
